@@ -10,7 +10,7 @@ from mon.gen.heur import make_heuristic
 from mon.ref import mdp as Rf
 
 PROP = "C04"
-CASES = {"quick": 800, "thorough": 15000}
+CASES = {"quick": 1600, "thorough": 24000}
 CASE_TIMEOUT = 60
 REQUIRED = ["lrtdp_calls", "listener_timesteps", "listener_trials", "values_checked_online"]
 RULE = ("random proper MDP specs (gamma in {.5,.9,.99,1}; initial mass on absorbing states; live absorbing "
@@ -27,8 +27,23 @@ def run_case(case, rng):
     from mon.gen import build as Bd
 
     n_max = 12 if case.tier == "thorough" and rng.random() < 0.3 else 7
-    sp = G.random_spec(rng, "proper", n_max=n_max, allow_implicit=False,
-                       reward_scale=rng.choice([1.0, 1.0, 1.0, 30.0]))
+    tie_family = rng.random() < 0.3
+    if tie_family:
+        # integer non-positive rewards + an optimistic constant heuristic: exact ties between an explored action
+        # and an unexplored branch that still holds its heuristic value are common here
+        sp = G.random_spec(rng, "proper", n_max=n_max, allow_implicit=False, reward_sign="neg",
+                           gamma=rng.choice([1.0, 1.0, 0.5]), allow_zero_entries=False)
+        for key, lst in list(sp.P.items()):          # deterministic, costs in {-1,-2}
+            pos = {t: i for i, t in enumerate(sp.states)}
+            up = [t for t, q in lst if q > 0 and pos[t] > pos[key[0]]]
+            tgt = rng.choice(up) if up else max(lst, key=lambda x: x[1])[0]   # keeps the MDP proper
+            sp.P[key] = [(tgt, 1.0)]
+            sp.kind[key] = "dict"
+        for key in sp.R:
+            sp.R[key] = float(rng.choice([-1, -1, -2]))
+    else:
+        sp = G.random_spec(rng, "proper", n_max=n_max, allow_implicit=False,
+                           reward_scale=rng.choice([1.0, 1.0, 1.0, 30.0]))
     # initial mass on absorbing states on purpose
     if rng.random() < 0.35 and sp.flag:
         ab = rng.choice(sorted(sp.flag, key=repr))
@@ -52,18 +67,22 @@ def run_case(case, rng):
         raise Inconclusive("reference not certified")
     scale = sol.scale
     hk, h = make_heuristic(rng, arr, sol, gamma)
+    if tie_family and rng.random() < 0.7:
+        hk, h = "zero", {s: 0.0 for s in arr.S}
     margin = rng.choice([1e-1, 1e-2, 1e-2, 1e-4])
     seed = rng.choice([0, 1, 7, rng.randrange(2 ** 31)])
     rao = rng.random() < 0.5
     init_abs = [s for s, p in sp.init if s in sp.flag]
     case.family = "proper"
     case.params = dict(rep=rep, gamma=gamma, n=len(sp.states), heuristic=hk, margin=margin, seed=seed,
-                       randomize_action_order=rao, absorbing_initial=len(init_abs))
+                       randomize_action_order=rao, absorbing_initial=len(init_abs), tie_family=tie_family)
     Vstar = {s: float(sol.V[i]) for i, s in enumerate(arr.S)}
     tol = 1e-9 * scale
     stats = dict(steps=0, trials=0)
 
     def check_table(lv, where):
+        if stats.get("warmup"):
+            return
         V = lv["self"].res.V
         for s, v in list(V.items()):
             case.count("values_checked_online")
@@ -83,8 +102,27 @@ def run_case(case, rng):
             case.count("listener_trials")
             check_table(localvars, "trial")
 
+    if tie_family:
+        rao = rng.random() < 0.8
     planner = LRTDP(heuristic=lambda s: h[s], bellman_error_margin=margin, randomize_action_order=rao,
                     event_listener_class=Probe, seed=seed)
+    reuse = rng.random() < 0.3
+    if reuse:
+        # the same planner object first plans on a sibling problem over the SAME state labels in which one more
+        # state is absorbing (still proper): nothing of that run may leak into the judged one
+        import copy
+        sib = copy.deepcopy(sp)
+        extra = [s for s in sib.states if s not in sib.flag]
+        if extra:
+            sib.flag = set(sib.flag) | {rng.choice(extra)}
+            stats_backup = dict(stats)
+            stats["warmup"] = True
+            case.call("LRTDP.plan_on(sibling)", planner.plan_on, Bd.build(sib, rep))
+            stats.clear()
+            stats.update(stats_backup)
+            case.count("planner_reused")
+            for k_ in ("listener_timesteps", "listener_trials", "values_checked_online"):
+                pass
     res = case.call("LRTDP.plan_on", planner.plan_on, mdp, facts=dict(gamma=gamma, heuristic=hk))
     case.count("lrtdp_calls")
     if res is case.FAIL:
